@@ -711,6 +711,20 @@ impl MleJaccard {
 
 //======================================================================================================
 
+// verification hooks: compiled only with `--cfg probminhash_verif`
+#[cfg(probminhash_verif)]
+impl<I, T, H> SetSketcher<I, T, H>
+where
+    I: Integer + ToPrimitive + FromPrimitive + Bounded + Copy + Clone + std::fmt::Debug,
+    T: Hash,
+    H: Hasher + Default,
+{
+    /// (lower_k, nbmin)
+    pub fn verif_state(&self) -> (f64, u64) {
+        (self.lower_k, self.nbmin)
+    }
+}
+
 #[cfg(test)]
 mod tests {
 
